@@ -23,7 +23,12 @@
 #include <memory>
 #include <set>
 
+// the plan's bookkeeping (want_, ready_, pool use) is private; the harness only READS it for the
+// snapshot lines the Gallina plan/scan models are compared with
+#define private public
 #include "build.h"
+#include "state.h"
+#undef private
 #include "build_log.h"
 #include "clean.h"
 #include "deps_log.h"
@@ -212,7 +217,49 @@ struct ScriptedRunner : public CommandRunner {
   std::map<string, int> pool_running, pool_max;
   std::set<Edge*> started_once;
 
+  string last_ps;
+  // the plan's bookkeeping as of now (read-only peek): want map, ready queue, pools, counters
+  void DumpPlanState() {
+    if (!builder) return;
+    Plan& p = builder->plan_;
+    string l = "ps want=";
+    vector<string> ws;
+    for (auto& w : p.want_) ws.push_back(hex(w.first->outputs_[0]->path()) + ":" + (w.second == Plan::kWantNothing ? "n" : w.second == Plan::kWantToStart ? "s" : "f"));
+    std::sort(ws.begin(), ws.end());
+    for (size_t i = 0; i < ws.size(); ++i) l += (i ? "," : "") + ws[i];
+    if (ws.empty()) l += "-";
+    EdgePriorityQueue q = p.ready_;
+    vector<string> rs;
+    while (!q.empty()) { rs.push_back(hex(q.top()->outputs_[0]->path())); q.pop(); }
+    std::sort(rs.begin(), rs.end());
+    l += " ready=";
+    for (size_t i = 0; i < rs.size(); ++i) l += (i ? "," : "") + rs[i];
+    if (rs.empty()) l += "-";
+    l += " pools=";
+    bool first = true;
+    for (auto& pp : state->pools_) {
+      Pool* pool = pp.second;
+      if (pool->depth() == 0) continue;
+      vector<string> ds;
+      for (Edge* e : pool->delayed_) ds.push_back(hex(e->outputs_[0]->path()));
+      std::sort(ds.begin(), ds.end());
+      l += (first ? "" : ";") + hex(pool->name()) + ":" + std::to_string(pool->current_use()) + ":";
+      for (size_t i = 0; i < ds.size(); ++i) l += (i ? "+" : "") + ds[i];
+      if (ds.empty()) l += "-";
+      first = false;
+    }
+    if (first) l += "-";
+    l += " wanted=" + std::to_string(p.wanted_edges_) + " commands=" + std::to_string(p.command_edges_);
+    vector<string> run;
+    for (auto& r : running) run.push_back(hex(r.edge->outputs_[0]->path()));
+    std::sort(run.begin(), run.end());
+    l += " running=";
+    for (size_t i = 0; i < run.size(); ++i) l += (i ? "," : "") + run[i];
+    if (run.empty()) l += "-";
+    if (l != last_ps) { ev->push_back(l); last_ps = l; }
+  }
   size_t CanRunMore() const override {
+    const_cast<ScriptedRunner*>(this)->DumpPlanState();
     int cap = bo->j - (int)running.size();
     return cap > 0 ? (size_t)cap : 0;
   }
@@ -270,6 +317,8 @@ struct ScriptedRunner : public CommandRunner {
     return "H:" + u64hex(fnv(acc));
   }
   BuildResult WaitForCommand() override {
+    DumpPlanState();
+    ev->push_back("ev wait");
     ++waits;
     if (running.empty()) return BuildResult::Finished{};
     if (bo->interrupt >= 0 && waits - 1 == bo->interrupt) {
@@ -348,6 +397,7 @@ struct LogUser : public BuildLogUser {
   }
 };
 
+void DumpSnap(State* state, Builder* builder, vector<string>* ev);
 // ---------------------------------------------------------------- one ninja invocation
 struct Invocation {
   Scenario* sc; BuildOpts* bo; vector<string>* ev;
@@ -356,6 +406,9 @@ struct Invocation {
   BuildConfig config;
 
   bool LoadManifest() {
+    // the built-in pools are static objects: a fresh process has them pristine
+    State::kConsolePool = Pool("console", 1);
+    State::kDefaultPool = Pool("", 0);
     ManifestParser parser(&state, &sc->disk);
     string err;
     if (!parser.Load("build.ninja", &err)) { ev->push_back("ev parse-error " + hex(err)); return false; }
@@ -416,6 +469,7 @@ struct Invocation {
       if (!bo->dry) {
         runner = new ScriptedRunner;
         runner->sc = sc; runner->bo = bo; runner->ev = ev; runner->state = &state; runner->manifest_reads = &manifest_reads;
+        runner->builder = &builder;
         builder.command_runner_.reset(runner);
       }
       bool failed = false;
@@ -424,6 +478,7 @@ struct Invocation {
           if (!err.empty()) { ev->push_back("ev exit 1 " + hex(err)); failed = true; break; }
         }
       }
+      if (!failed && !rebuild_manifest_phase) DumpSnap(&state, &builder, ev);
       if (failed) { code = 1; }
       else if (builder.AlreadyUpToDate()) {
         if (rebuild_manifest_phase) return -1;
@@ -456,6 +511,43 @@ struct Invocation {
     return code;
   }
 };
+
+string JoinNodes(const vector<Node*>& v, size_t from, size_t to) {
+  string r;
+  for (size_t i = from; i < to; ++i) r += (r.empty() ? "" : ",") + hex(v[i]->path());
+  return r.empty() ? "-" : r;
+}
+// Snapshot after the scan (all AddTarget calls) and before Build(): what DependencyScan decided and
+// what Plan recorded.  Read-only.
+void DumpSnap(State* state, Builder* builder, vector<string>* ev) {
+  for (Edge* e : state->edges_) {
+    string l = "snap edge " + hex(e->outputs_[0]->path());
+    l += " outs=" + JoinNodes(e->outputs_, 0, e->outputs_.size());
+    l += " ins=" + JoinNodes(e->inputs_, 0, e->inputs_.size());
+    l += " imp=" + std::to_string(e->implicit_deps_) + " oo=" + std::to_string(e->order_only_deps_);
+    l += " vals=" + JoinNodes(e->validations_, 0, e->validations_.size());
+    l += string(" phony=") + (e->is_phony() ? "1" : "0");
+    l += " pool=" + hex(e->pool()->name()) + " depth=" + std::to_string(e->pool()->depth());
+    l += string(" ready=") + (e->outputs_ready() ? "1" : "0");
+    auto w = builder->plan_.want_.find(e);
+    l += string(" want=") + (w == builder->plan_.want_.end() ? "-" : w->second == Plan::kWantNothing ? "n" : w->second == Plan::kWantToStart ? "s" : "f");
+    l += " mark=" + std::to_string((int)e->mark_);
+    l += string(" depsmissing=") + (e->deps_missing_ ? "1" : "0");
+    l += string(" depsloaded=") + (e->deps_loaded_ ? "1" : "0");
+    ev->push_back(l);
+  }
+  for (Node* n : state->paths_.empty() ? vector<Node*>() : vector<Node*>()) (void)n;
+  vector<std::pair<string, Node*>> nodes;
+  for (auto& p : state->paths_) nodes.push_back(std::make_pair(p.first.AsString(), p.second));
+  std::sort(nodes.begin(), nodes.end());
+  for (auto& p : nodes) {
+    Node* n = p.second;
+    if (!n->status_known() && !n->dirty()) continue;   // never visited by the scan
+    ev->push_back("snap node " + hex(n->path()) + " dirty=" + (n->dirty() ? "1" : "0") + " mtime=" + std::to_string(n->mtime()) +
+                  " exists=" + (n->exists() ? "1" : "0"));
+  }
+  ev->push_back("snap plan wanted=" + std::to_string(builder->plan_.wanted_edges_) + " commands=" + std::to_string(builder->plan_.command_edges_));
+}
 
 void DumpState(Scenario* sc, vector<string>* ev) {
   for (auto& f : sc->disk.files)
